@@ -204,6 +204,22 @@ def run(tier, seed, replay=None):
                 if (want and x != want) or (not want and not x.startswith("E")):
                     res.failing.append(("archive-name-buffer", "SFileGetArchiveName with a %d-byte buffer for a %d-byte path answers %s" % (n, plen, x[:40]), case))
                     break
+    # ---- SFileExtractFile: several members in turn to the same local path (longer ones first, missing names in between)
+    xl = []
+    for wi, pth in enumerate(paths):
+        wd = {bytes.fromhex(e.split(":")[0]): len(e.split(":")[1]) for e in worlds[wi].split(",") if ":" in e and not e.split(":")[1].startswith("ERR")}
+        nm = sorted(wd, key=lambda n: -wd[n])
+        if len(nm) < 2:
+            continue
+        seqs = [nm, nm[::-1], [nm[0], b"no\\such.file", nm[-1], nm[0]]] + [r.sample(nm, len(nm)) for _ in range(3 if big else 1)]
+        for k, sq in enumerate(seqs):
+            xl.append("xtract %s %s %s" % (pth, os.path.join(base, "x%d_%d.out" % (wi, k)), ",".join(C.hexs(n if isinstance(n, bytes) else n.encode()) for n in sq)))
+    xo = C.run_lines(fi, xl, shards=min(C.NPROC, len(xl)), timeout=600)
+    for c, o in zip(xl, xo):
+        res.case(c.replace(base, "<dir>"), nontrivial=True)
+        bad = [x for x in o.split(",") if x not in ("ok", "refused")]
+        if bad:
+            res.failing.append(("extract-file-%s" % bad[0].split(":")[0].lower(), "SFileExtractFile to one local path in turn: %s" % o[:120], {"command": c.replace(base, "<dir>")[:400]}))
     # ---- threads
     st = []
     for th in ([2, 4, 8, 16] if big else [2, 4, 8]):
